@@ -516,6 +516,28 @@ pub fn evaluate(plan: &Plan, rec: &RunRecord, st: &mut Stats) {
         st.maxi("max_forced_resolution_ms", s_r.t.saturating_sub(s_c.t) / 1000);
     }
 
+    // ---- rule 4b: nothing that stands for "the server has shut down" resolves while the drain is still going on: awaiting a
+    // clone of the handle, and a second `shutdown()` call made on a clone while the first one is being served (unless that
+    // call's own timeout has elapsed)
+    if let Some(hr) = one("handle_resolved") {
+        st.count("rule4b_handle_await_order_checked", 1);
+        if hr.seq < c_e.seq {
+            st.violation(json!({"rule": "handle_await_resolved_during_drain", "mode": plan.mode()}),
+                with(json!({"coordinator_wait_ms": coord_ms, "events": events_about(None, &[]), "full_plan": plan.to_json()})));
+        }
+    }
+    if let (Some(c2), Some(r2)) = (one("shutdown2_called"), one("shutdown2_resolved")) {
+        st.count("rule4b_second_call_checked", 1);
+        let own_timeout_elapsed = graceful && (r2.t.saturating_sub(c2.t) / 1000) + 25 >= t_ms;
+        if r2.seq < c_e.seq && c2.seq < c_e.seq && !own_timeout_elapsed {
+            st.violation(json!({"rule": "second_shutdown_call_resolved_during_drain", "mode": plan.mode()}),
+                with(json!({"resolved_ms_after_second_call": r2.t.saturating_sub(c2.t) / 1000, "coordinator_wait_ms": coord_ms,
+                    "events": events_about(None, &[]), "full_plan": plan.to_json()})));
+        }
+    } else if plan.second_call_after_ms.is_some() && one("shutdown2_called").is_some() {
+        st.inconc("the second shutdown call did not resolve within the watchdog", with(json!({"events": events_about(None, &[])})));
+    }
+
     // ---- rule 6: graceful resolution comes after the last running handler, or after the timeout
     if graceful {
         if timeout_branch {
